@@ -71,6 +71,27 @@ CLAIMED.update({
     },
 })
 
+CLAIMED.update({
+    "C12": {
+        "text": "Coq theorems (closed under the global context) about the model tokenizer, for EVERY line and EVERY position outside string literals, REM text and DATA item text (regions computed from the tokenizer's own ranges): inserting a space/tab/FF/CR yields the same token sequence with ranges shifted by one byte (C12_insert, C12_insert_ranges), deleting a blank yields the same sequence (C12_delete), changing the case of a byte yields the same tokens and ranges (C12_flip), and any finite sequence of such edits preserves the sequence (C12_any); for the DATA item parser, a white-space character where an item starts (after the keyword, after a comma, around a quoted item) or ends (before a comma, the terminating colon, the end) changes no item (C12_data, C12_data_chars). Facts about the keyword table are decided by computation over the regenerated Gen/Tables.v. Tied to the code by the tokenizer correspondence (tokens, ranges, errors) on every original and perturbed line and a perturbation oracle on the implementation.",
+        "design_ref": "DESIGN.md 6 C12",
+        "note": NOTE,
+        "technique": "Coq proof: locality of the crunching tokenizer (per-matcher lemmas, induction on the token iterator) + state-machine lemmas for the DATA parser; differential correspondence + perturbation oracle",
+    },
+    "C08": {
+        "text": "Coq theorems (closed under the global context), for ANY state whose cursor is on an INPUT token (after other statements, inside THEN/ELSE, in loops and subroutines - the surroundings are arbitrary): with no reply pending the statement only sets AwaitingInput and leaves the cursor ON the INPUT token (C08_await); a reply makes the interpreter Running and the next call executes exactly the statement under the cursor, then the fixed end-of-turn tail (C08_resume); with a reply pending, for ANY target, the statement parses the target and then runs exactly the assignment's own assign_value, followed by EXTRA IGNORED iff items or text are left, or REENTER + the same request (C08_reply_any_target, C08_accept, C08_accept_is_assignment, C08_reenter, C08_reenter_same_request); every reply text is stored or refused, no third outcome (C08_reply_total). Continuation after the INPUT 'as the assignment would' across whole programs is exercised by the INPUT-vs-assignment oracle (9 placements x 7 targets x replies) and the session correspondence.",
+        "design_ref": "DESIGN.md 6 C08",
+        "note": NOTE + "Whole-program equivalence with the assignment-in-place program is validated by the oracle, not proved (it needs C03's simulation).",
+        "technique": "Coq proof: symbolic execution of the INPUT statement on an arbitrary state (cursor/rewind lemmas, DATA parser totality); INPUT-vs-assignment differential oracle + correspondence",
+    },
+    "C07": {
+        "text": "Coq theorems (closed under the global context): a host break while Running followed by CONT yields the IDENTICAL complete state and row as the plain continue call (C07_break_cont_running); while awaiting input it re-issues the same request with the identical state (C07_break_cont_awaiting); RUN establishes and every driving call keeps the invariant these need (C07_run_establishes, C07_invariant_kept - an inductive invariant over all evaluators); hence for EVERY program started by RUN and EVERY schedule of break+CONT pairs at turn boundaries the shown output records (all but BREAK notices and trace records), the errors and the final state equal those of the uninterrupted run (C07_schedule, induction over schedules); CONT and the whole continuation read only the breakpoint and the runtime part of the state, so an inspection line - succeeding or failing - can change the continuation only by changing that part (C07_inspect). That specific inspection lines (PRINT of expressions, failing FN calls) leave the runtime part alone, and assignment-at-STOP = assignment-in-place, are checked on the implementation by the oracle and by the correspondence.",
+        "design_ref": "DESIGN.md 6 C07",
+        "note": NOTE + "An input request re-issued because the host broke in before it was answered counts once. The side condition awaiting_ok (cursor on the INPUT token, no reply pending) for breaks while awaiting input is what C08_await establishes at every suspension; it is a hypothesis of C07_schedule, not re-derived there. C07_assign_at_stop is validated, not proved.",
+        "technique": "Coq proof: state equality by symbolic execution of break/CONT + inductive run invariant over all evaluators + induction over schedules; with/without-break differential oracle + correspondence",
+    },
+})
+
 _TODO = "check under construction in this session; not claimed until its theorems and correspondence are in place"
-NOT_CLAIMED = {p: _TODO for p in ["C03", "C05", "C06", "C07", "C08", "C09", "C12", "C14",
+NOT_CLAIMED = {p: _TODO for p in ["C03", "C05", "C06", "C09", "C14",
                                   "C15", "C19", "C20"]}
